@@ -92,6 +92,8 @@ def run_case(case):
         for x in range(ew):
             outside.update([(x, y, -1), (x, y, ed)])
     outside.update([(-1, -1, -1), (ew, eh, ed)])
+    # less than one cell outside (a coordinate need not be integral to be outside the grid)
+    outside.update([(-0.5, 0, 0), (0, -0.5, 0), (0, 0, -0.5), (-0.001, 0, 0), (0, 0, -0.999), (ew + 0.5, 0, 0), (0, eh + 0.25, 0), (0, 0, ed + 0.5)])
     for args in sorted(outside):
         try:
             row = world.get_cell(*args)
